@@ -44,3 +44,20 @@ Print Assumptions C11_generated_quote_chooser_is_the_model.
 Theorem C11_quote_chooser_never_panics : forall st lit, QuoteChoice.get_quote_to_use st lit <> FmAst.StringLiteralQuoteType_Unreachable.
 Proof. exact QuoteChoiceProof.unreachable_never_reached. Qed.
 Print Assumptions C11_quote_chooser_never_panics.
+
+(* the option switches the binary consults (src/context.rs, regenerated on every run) are the ones of the rule above *)
+From SV Require CtxOptionsProof.
+From SVgen Require CtxOptions.
+Theorem C11_generated_blank_after_call_names : forall s,
+  CtxOptionsProof.ws_text (CtxOptions.create_function_call_trivia s) = if CallForm.space_call (CtxOptionsProof.smode_of s) then (Lex.SP :: nil) else nil.
+Proof. exact CtxOptionsProof.call_blank. Qed.
+Print Assumptions C11_generated_blank_after_call_names.
+Theorem C11_generated_blank_after_definition_names : forall s,
+  CtxOptionsProof.ws_text (CtxOptions.create_function_definition_trivia s) = if CallForm.space_definition (CtxOptionsProof.smode_of s) then (Lex.SP :: nil) else nil.
+Proof. exact CtxOptionsProof.definition_blank. Qed.
+Print Assumptions C11_generated_blank_after_definition_names.
+Theorem C11_generated_omission_switches : forall c,
+  CtxOptions.should_omit_string_parens false c = CallForm.omit_string (CtxOptionsProof.cmode_of c) /\
+  CtxOptions.should_omit_table_parens false c = CallForm.omit_table (CtxOptionsProof.cmode_of c).
+Proof. intros c. split; [exact (CtxOptionsProof.omit_string_switch c) | exact (CtxOptionsProof.omit_table_switch c)]. Qed.
+Print Assumptions C11_generated_omission_switches.
